@@ -1,3 +1,15 @@
+// Driver for C16 (device grant: tokens only after user approval and only to
+// the initiating client).
+//
+// Two kinds of cases:
+//   - histories of device_authorization / approve / deny / poll operations by
+//     2-3 clients (confidential, public) on both routers over one refstore
+//     (opfix); devices are created expired through a negative configured
+//     lifetime; a storage time-out is a refstore fault (deadline) on
+//     GetDeviceAuthorizatonState. crypto/rand.Reader is pinned to a byte string
+//     chosen by the driver for the duration of every device_authorization
+//     request, so the model predicts device code and user code exactly.
+//   - direct calls of op.NewUserCode with the random source pinned.
 package main
 
 import (
@@ -5,62 +17,596 @@ import (
 	crand "crypto/rand"
 	"fmt"
 	"net/url"
+	"os"
+	"strings"
 	"time"
+	"unicode/utf8"
 
+	"verifharness/drv"
+	"verifharness/emit"
 	"verifharness/opfix"
+	"verifharness/refstore"
 
+	"github.com/zitadel/oidc/v3/pkg/oidc"
 	"github.com/zitadel/oidc/v3/pkg/op"
 )
 
+const deviceGrant = "urn:ietf:params:oauth:grant-type:device_code"
+
+// ------------------------------------------------------------------ Gallina rendering
+
+func runeList(rs []rune) string {
+	items := make([]string, len(rs))
+	for i, r := range rs {
+		items[i] = emit.Str(string(r))
+	}
+	return emit.List(items)
+}
+
+type creds struct {
+	basic      []string // nil or {id, secret}
+	id, secret string   // form fields ("" = absent)
+}
+
+func (c creds) coq() string {
+	b := emit.None
+	if c.basic != nil {
+		b = emit.Some(emit.Pair(emit.Str(c.basic[0]), emit.Str(c.basic[1])))
+	}
+	return emit.Ctor("mkCreds", b, emit.Str(c.id), emit.Str(c.secret))
+}
+
+func (c creds) form(v url.Values) url.Values {
+	if c.id != "" {
+		v.Set("client_id", c.id)
+	}
+	if c.secret != "" {
+		v.Set("client_secret", c.secret)
+	}
+	return v
+}
+
+func routerCoq(r opfix.Router) string {
+	if r == opfix.Legacy {
+		return "RLegacy"
+	}
+	return "RProvider"
+}
+
+type client struct {
+	id, secret string
+	web        bool
+	auth       oidc.AuthMethod
+	dev, refr  bool
+	jwt        bool
+}
+
+func (c client) coq() string {
+	a := map[oidc.AuthMethod]string{oidc.AuthMethodBasic: "ABasic", oidc.AuthMethodPost: "APost", oidc.AuthMethodNone: "ANone"}[c.auth]
+	return emit.Ctor("mkClient", emit.Str(c.id), emit.Str(c.secret), emit.Bool(c.web), a, emit.Bool(c.dev), emit.Bool(c.refr))
+}
+
+func (c client) canonical() creds {
+	if c.auth == oidc.AuthMethodNone {
+		return creds{id: c.id}
+	}
+	return creds{basic: []string{c.id, c.secret}}
+}
+
+// ------------------------------------------------------------------ user-code configurations
+
+type ucCfg struct {
+	class   string
+	charset []rune
+	n, dash int
+}
+
+func bigAlphabet(n int) []rune {
+	rs := make([]rune, n)
+	for i := range rs {
+		rs[i] = rune(0x100 + i) // two-byte UTF-8, needs 2 random bytes per draw when n > 256
+	}
+	return rs
+}
+
+func pickUserCode(r drv.Rand, direct bool) ucCfg {
+	alph := [][]rune{
+		[]rune(op.CharSetBase20), []rune(op.CharSetDigits), []rune("äöü€𝄞AB"), []rune("ab-_"), []rune("X"),
+		[]rune("日本語コード"), bigAlphabet(300), []rune("01"), bigAlphabet(256), []rune("ABCDEFGH"),
+	}
+	switch k := r.IntN(12); {
+	case k == 0:
+		return ucCfg{"base20", []rune(op.CharSetBase20), 8, 4}
+	case k == 1:
+		return ucCfg{"digits", []rune(op.CharSetDigits), 9, 3}
+	case k == 2: // no dashes
+		return ucCfg{"dash0", drv.Pick(r, alph), 1 + r.IntN(10), 0}
+	case k == 3: // dash >= n
+		n := 1 + r.IntN(8)
+		return ucCfg{"dashge", drv.Pick(r, alph), n, n + r.IntN(3)}
+	case k == 4: // dash 1: a dash before every rune but the first
+		return ucCfg{"dash1", drv.Pick(r, alph), 1 + r.IntN(8), 1}
+	case k == 5 && direct: // F17 classes (direct calls; over HTTP only n = 0 is reachable)
+		if r.Bool() {
+			return ucCfg{"emptyalphabet", nil, r.IntN(6), r.IntN(4)}
+		}
+		return ucCfg{"zerolen", drv.Pick(r, alph), 0, r.IntN(4)}
+	case k == 5: // small code space: duplicates of user codes happen
+		return ucCfg{"tiny", []rune("01"), 1 + r.IntN(2), 0}
+	default:
+		n := 1 + r.IntN(12)
+		return ucCfg{"mixed", drv.Pick(r, alph), n, r.IntN(n + 2)}
+	}
+}
+
+func (u ucCfg) f17() bool { return (len(u.charset) == 0 && u.n >= 1) || (u.n == 0 && u.dash > 0) }
+
+// enough random bytes for the user code in almost every case (rejection sampling aside)
+func (u ucCfg) randLen(r drv.Rand) int {
+	per := 1
+	if len(u.charset) > 256 {
+		per = 2
+	}
+	switch r.IntN(12) {
+	case 0:
+		return r.IntN(u.n*per + 1) // too few: io.ReadFull fails
+	case 1:
+		return u.n * per
+	}
+	return u.n*per*4 + 8
+}
+
+func pinned(rnd []byte, f func()) {
+	saved := crand.Reader
+	crand.Reader = bytes.NewReader(rnd)
+	defer func() { crand.Reader = saved }()
+	f()
+}
+
+// ------------------------------------------------------------------ direct NewUserCode cases
+
+func userCodeCase(r drv.Rand, w *emit.Writer) {
+	u := pickUserCode(r, true)
+	rnd := r.Bytes(u.randLen(r))
+	var code string
+	var err error
+	p := drv.Catch(func() {
+		pinned(rnd, func() { code, err = op.NewUserCode(u.charset, u.n, u.dash) })
+	})
+	obs := emit.Ctor("OUserCode", emit.None)
+	switch {
+	case p != "":
+		obs = "OPanic"
+	case err == nil:
+		obs = emit.Ctor("OUserCode", emit.Some(emit.Str(code)))
+	}
+	in := emit.Ctor("IUserCode", runeList(u.charset), emit.Nat(u.n), emit.Nat(u.dash), emit.Bytes(rnd))
+	tags := []string{"kind=usercode", "uc=" + u.class, fmt.Sprintf("alphabet=%d", min(len(u.charset), 257))}
+	if u.f17() {
+		tags = append(tags, "f17=1")
+	}
+	w.Add(emit.Case{Input: in, Observed: obs, Tags: tags,
+		Human: map[string]any{"charset": string(u.charset), "n": u.n, "dash": u.dash, "rand": rnd, "code": code, "panic": p}})
+}
+
+// ------------------------------------------------------------------ histories
+
+type issued struct {
+	dc, uc string
+	owner  int // index into clients
+}
+
+type hist struct {
+	r        drv.Rand
+	st       *refstore.Store
+	fix      map[int64]*opfix.Fixture
+	origin   string
+	path     string
+	interval int
+	life     int
+	uc       ucCfg
+	clients  []client
+	devs     []issued
+	ops      []string
+	obs      []string
+	human    []string
+	muts     map[string]bool
+	t0       time.Time
+}
+
+func (h *hist) fixture(life int) *opfix.Fixture {
+	if f, ok := h.fix[int64(life)]; ok {
+		return f
+	}
+	f, err := opfix.New(h.st, opfix.Options{Issuer: h.origin, Device: op.DeviceAuthorizationConfig{
+		Lifetime: time.Duration(life) * time.Second, PollInterval: time.Duration(h.interval) * time.Second,
+		UserFormPath: h.path,
+		UserCode:     op.UserCodeConfig{CharSet: string(h.uc.charset), CharAmount: h.uc.n, DashInterval: h.uc.dash}}})
+	if err != nil {
+		panic(err)
+	}
+	h.fix[int64(life)] = f
+	return f
+}
+
+func jnum(m map[string]any, k string) (int64, bool) {
+	f, ok := m[k].(float64)
+	return int64(f), ok
+}
+
+func errResp(resp *opfix.Resp) string {
+	if resp.Panic != "" {
+		return "RPanic"
+	}
+	if resp.Status >= 400 && resp.OAuthError() != "" && resp.Writes == 1 {
+		return emit.Ctor("RErr", emit.Str(resp.OAuthError()))
+	}
+	return "ROther"
+}
+
+func (h *hist) authz(router opfix.Router, cr creds, owner int, scopes []string, expired bool) {
+	life := h.life
+	if expired {
+		life = -life
+	}
+	rnd := h.r.Bytes(16 + h.uc.randLen(h.r))
+	f := h.fixture(life)
+	form := url.Values{}
+	if len(scopes) > 0 {
+		form.Set("scope", strings.Join(scopes, " "))
+	}
+	cr.form(form)
+	now := time.Now().UnixNano()
+	var resp *opfix.Resp
+	pinned(rnd, func() { resp = f.Post(router, "/device_authorization", form, cr.basic, "") })
+	h.ops = append(h.ops, emit.Ctor("OpAuthz", routerCoq(router), cr.coq(), emit.StrList(scopes), emit.Z(now), emit.Z(int64(life)), emit.Bytes(rnd)))
+	obs := errResp(resp)
+	if resp.Panic == "" && resp.Status == 200 && resp.Str("device_code") != "" {
+		e, ok1 := jnum(resp.JSON, "expires_in")
+		i, ok2 := jnum(resp.JSON, "interval")
+		if ok1 && ok2 {
+			obs = emit.Ctor("RDevice", emit.Str(resp.Str("device_code")), emit.Str(resp.Str("user_code")),
+				emit.Str(resp.Str("verification_uri")), emit.Str(resp.Str("verification_uri_complete")), emit.Z(e), emit.Z(i))
+			h.devs = append(h.devs, issued{resp.Str("device_code"), resp.Str("user_code"), owner})
+		} else {
+			obs = "ROther"
+		}
+	}
+	h.obs = append(h.obs, obs)
+	h.human = append(h.human, fmt.Sprintf("authz %s %+v scopes=%v life=%d -> %d %s", router, cr, scopes, life, resp.Status, clip(resp.Body)))
+}
+
+func clip(s string) string {
+	if len(s) > 160 {
+		return s[:160]
+	}
+	return s
+}
+
+func (h *hist) poll(router opfix.Router, cr creds, dc string, fault string) {
+	f := h.fixture(h.life)
+	form := url.Values{"grant_type": {deviceGrant}}
+	if dc != "" {
+		form.Set("device_code", dc)
+	}
+	cr.form(form)
+	fc := "FNone"
+	if fault != "" {
+		h.st.FaultMethod, h.st.FaultKind = "GetDeviceAuthorizatonState", fault
+		fc = map[string]string{"deadline": "FDeadline", "error": "FError"}[fault]
+	}
+	now := time.Now().UnixNano()
+	resp := f.Post(router, "/oauth/token", form, cr.basic, "")
+	h.st.FaultMethod, h.st.FaultKind = "", ""
+	h.ops = append(h.ops, emit.Ctor("OpPoll", routerCoq(router), cr.coq(), emit.Str(dc), emit.Z(now), fc))
+	obs := errResp(resp)
+	if resp.Panic == "" && resp.Status == 200 && resp.Str("access_token") != "" {
+		obs = h.tokens(f, resp)
+	}
+	h.obs = append(h.obs, obs)
+	h.human = append(h.human, fmt.Sprintf("poll %s %+v dc=%q fault=%q -> %d %s", router, cr, dc, fault, resp.Status, clip(resp.Body)))
+}
+
+// tokens projects a token answer: subject and token id from the access token
+// itself, owning client from the storage record of that token id.
+func (h *hist) tokens(f *opfix.Fixture, resp *opfix.Resp) string {
+	at := resp.Str("access_token")
+	var id, sub string
+	if pl := opfix.JWTPayload(at); pl != nil {
+		id, _ = pl["jti"].(string)
+		sub, _ = pl["sub"].(string)
+	} else if s, ok := f.OpenBearer(at); ok {
+		id, sub, _ = strings.Cut(s, ":")
+	} else {
+		return "ROther"
+	}
+	tok, ok := h.st.Tokens[id]
+	if !ok || tok.Subject != sub {
+		return "ROther"
+	}
+	idsub := emit.None
+	if it := resp.Str("id_token"); it != "" {
+		pl := opfix.JWTPayload(it)
+		s, _ := pl["sub"].(string)
+		idsub = emit.Some(emit.Str(s))
+	}
+	scopes := strings.Fields(resp.Str("scope"))
+	return emit.Ctor("RTokens", emit.Str(sub), emit.Str(tok.ClientID), emit.StrList(scopes), idsub, emit.Bool(resp.Str("refresh_token") != ""))
+}
+
+func (h *hist) approve(uc, sub string) {
+	ok := h.st.Approve(uc, sub)
+	h.ops = append(h.ops, emit.Ctor("OpApprove", emit.Str(uc), emit.Str(sub)))
+	h.obs = append(h.obs, emit.Ctor("RAck", emit.Bool(ok)))
+	h.human = append(h.human, fmt.Sprintf("approve %q as %s -> %v", uc, sub, ok))
+}
+
+func (h *hist) deny(uc string) {
+	ok := h.st.Deny(uc)
+	h.ops = append(h.ops, emit.Ctor("OpDeny", emit.Str(uc)))
+	h.obs = append(h.obs, emit.Ctor("RAck", emit.Bool(ok)))
+	h.human = append(h.human, fmt.Sprintf("deny %q -> %v", uc, ok))
+}
+
+func (h *hist) router() opfix.Router {
+	if h.r.Bool() {
+		return opfix.Legacy
+	}
+	return opfix.Provider
+}
+
+func (h *hist) scopes() []string {
+	voc := []string{"openid", "profile", "email", "offline_access", "api:read", "x"}
+	var out []string
+	for _, s := range voc {
+		if h.r.Chance(2, 5) {
+			out = append(out, s)
+		}
+	}
+	return out
+}
+
+// devClients: indices of clients allowed to start a flow in generated histories.
+// A client without the device grant starts one only on the Provider router
+// (on the Legacy router that is defect F21, owned by C05, and left out).
+func (h *hist) pickClient() int { return h.r.IntN(len(h.clients)) }
+
+func (h *hist) mut(name string) { h.muts[name] = true }
+
+// mutated credentials for client i
+func (h *hist) badCreds(i int) creds {
+	c := h.clients[i]
+	other := h.clients[(i+1)%len(h.clients)]
+	switch h.r.IntN(8) {
+	case 0:
+		h.mut("wrongsecret")
+		return creds{basic: []string{c.id, c.secret + "x"}}
+	case 1:
+		h.mut("noauth")
+		return creds{id: c.id}
+	case 2:
+		h.mut("post")
+		return creds{id: c.id, secret: c.secret}
+	case 3:
+		h.mut("postwrong")
+		return creds{id: c.id, secret: "nope"}
+	case 4:
+		h.mut("noclient")
+		return creds{}
+	case 5:
+		h.mut("ghost")
+		return creds{id: "ghost"}
+	case 6:
+		h.mut("mixed")
+		cr := other.canonical()
+		cr.id = c.id
+		return cr
+	default:
+		h.mut("basicpublic")
+		return creds{basic: []string{c.id, c.secret}}
+	}
+}
+
+func (h *hist) startFlow() {
+	i := h.pickClient()
+	cr := h.clients[i].canonical()
+	if h.r.Chance(1, 8) {
+		cr = h.badCreds(i)
+	}
+	// the client the request claims to be owns whatever is issued
+	claimed := cr.id
+	if cr.basic != nil {
+		claimed = cr.basic[0]
+	}
+	router := h.router()
+	for j, o := range h.clients {
+		if o.id == claimed {
+			i = j
+			if !o.dev {
+				router = opfix.Provider // F21 input class (Legacy router, client without the grant) left out
+			}
+		}
+	}
+	h.authz(router, cr, i, h.scopes(), h.r.Chance(1, 5))
+}
+
+func (h *hist) pollGood(d issued) {
+	h.poll(h.router(), h.clients[d.owner].canonical(), d.dc, "")
+}
+
+func (h *hist) pollMutated(d issued) {
+	switch h.r.IntN(9) {
+	case 0, 1: // another client polls the code
+		o := (d.owner + 1 + h.r.IntN(len(h.clients)-1)) % len(h.clients)
+		h.mut("foreign")
+		h.poll(h.router(), h.clients[o].canonical(), d.dc, "")
+	case 2:
+		h.poll(h.router(), h.badCreds(d.owner), d.dc, "")
+	case 3:
+		h.mut("unknowncode")
+		h.poll(h.router(), h.clients[d.owner].canonical(), drv.Pick(h.r, []string{"AAAAAAAAAAAAAAAAAAAAAA", d.dc + "A", d.dc[:len(d.dc)-1], strings.ToLower(d.dc)}), "")
+	case 4:
+		h.mut("usercodeascode")
+		h.poll(h.router(), h.clients[d.owner].canonical(), d.uc, "")
+	case 5:
+		h.mut("nocode")
+		h.poll(h.router(), h.clients[d.owner].canonical(), "", "")
+	case 6, 7:
+		h.mut("deadline")
+		h.poll(h.router(), h.clients[d.owner].canonical(), d.dc, "deadline")
+	default:
+		h.mut("storageerror")
+		h.poll(h.router(), h.clients[d.owner].canonical(), d.dc, "error")
+	}
+}
+
+func historyCase(r drv.Rand, w *emit.Writer, extra map[string]int) {
+	h := &hist{r: r, fix: map[int64]*opfix.Fixture{}, muts: map[string]bool{}}
+	h.origin = drv.Pick(r, []string{"https://op.example.com", "http://localhost:9998", "https://id.example.org:8443"})
+	h.path = drv.Pick(r, []string{"/device", "/activate", "/ui/device/code"})
+	h.interval = drv.Pick(r, []int{1, 5, 10})
+	h.life = drv.Pick(r, []int{60, 300, 600, 3600})
+	h.uc = pickUserCode(r, false)
+	if r.Chance(1, 40) { // F17 over HTTP: length 0 with a dash interval
+		h.uc = ucCfg{"zerolen", []rune(op.CharSetBase20), 0, 1 + r.IntN(4)}
+	}
+	// clients: 2-3 of the pool, at least one confidential and one public
+	sec := func() string { return fmt.Sprintf("s-%x", r.Bytes(4)) }
+	pool := []client{
+		{id: "web", secret: sec(), web: true, auth: oidc.AuthMethodBasic, dev: true, refr: true},
+		{id: "native", web: false, auth: oidc.AuthMethodNone, dev: true, refr: true},
+		{id: "web2", secret: sec(), web: true, auth: oidc.AuthMethodPost, dev: true, refr: r.Bool(), jwt: true},
+		{id: "spa", web: false, auth: oidc.AuthMethodNone, dev: true, refr: false, jwt: true},
+		{id: "nodev", secret: sec(), web: true, auth: oidc.AuthMethodBasic, dev: false, refr: true},
+	}
+	h.clients = pool[:2]
+	if r.Chance(2, 3) {
+		h.clients = append(h.clients, pool[2+r.IntN(3)])
+	}
+	if r.Bool() {
+		h.clients[0], h.clients[1] = h.clients[1], h.clients[0]
+	}
+	h.st = refstore.New(opfix.DefaultSigning())
+	for _, c := range h.clients {
+		grants := []oidc.GrantType{oidc.GrantTypeCode}
+		if c.dev {
+			grants = append(grants, oidc.GrantTypeDeviceCode)
+		}
+		if c.refr {
+			grants = append(grants, oidc.GrantTypeRefreshToken)
+		}
+		app := op.ApplicationTypeNative
+		if c.web {
+			app = op.ApplicationTypeWeb
+		} else if c.id == "spa" {
+			app = op.ApplicationTypeUserAgent
+		}
+		att := op.AccessTokenTypeBearer
+		if c.jwt {
+			att = op.AccessTokenTypeJWT
+		}
+		h.st.Clients[c.id] = &refstore.Client{ID: c.id, Secret: c.secret, Redirects: []string{"https://" + c.id + ".example.com/cb"},
+			App: app, Auth: c.auth, RespTypes: []oidc.ResponseType{oidc.ResponseTypeCode}, Grants: grants, ATType: att}
+	}
+	h.st.Users["alice"] = &refstore.User{Subject: "alice", Name: "Alice A", Email: "alice@example.com"}
+	h.st.Users["bob"] = &refstore.User{Subject: "bob", Name: "Bob B", Email: "bob@example.com"}
+	h.t0 = time.Now()
+
+	// flow-first: start a flow, then mostly legitimate steps with mutations mixed in
+	steps := 6 + r.IntN(10)
+	mustPoll := -1 // device index that was just approved: poll it next (keeps the success branch frequent)
+	for s := 0; s < steps; s++ {
+		if len(h.devs) == 0 {
+			h.startFlow()
+			continue
+		}
+		d := h.devs[len(h.devs)-1]
+		if r.Chance(1, 4) {
+			d = drv.Pick(r, h.devs)
+		}
+		if mustPoll >= 0 && r.Chance(4, 5) {
+			h.pollGood(h.devs[mustPoll])
+			mustPoll = -1
+			continue
+		}
+		mustPoll = -1
+		switch k := r.IntN(20); {
+		case k < 6:
+			h.pollGood(d)
+		case k < 10:
+			h.approve(d.uc, drv.Pick(r, []string{"alice", "bob", "carol"}))
+			for j := range h.devs {
+				if h.devs[j].dc == d.dc {
+					mustPoll = j
+				}
+			}
+		case k < 12:
+			h.deny(d.uc)
+		case k < 17:
+			h.pollMutated(d)
+		case k < 18:
+			h.mut("bogususercode")
+			if r.Bool() {
+				h.approve(drv.Pick(r, []string{"ZZZZ-ZZZZ", d.dc, d.uc + "0", ""}), "alice")
+			} else {
+				h.deny(drv.Pick(r, []string{"ZZZZ-ZZZZ", d.dc, d.uc + "0", ""}))
+			}
+		default:
+			h.startFlow()
+		}
+	}
+	if time.Since(h.t0) > 20*time.Second { // lifetimes are >= 60 s: a slower history could sit on an expiry boundary
+		extra["clock_ambiguous"]++
+		return
+	}
+	cl := make([]string, len(h.clients))
+	for i, c := range h.clients {
+		cl[i] = c.coq()
+	}
+	cfg := emit.Ctor("mkCfg", emit.Str(h.origin), emit.Str(h.path), runeList(h.uc.charset), emit.Nat(h.uc.n), emit.Nat(h.uc.dash), emit.Z(int64(h.interval)))
+	in := emit.Ctor("IHist", cfg, emit.List(cl), emit.List(h.ops))
+	tags := []string{"kind=history", "uc=" + h.uc.class, fmt.Sprintf("clients=%d", len(h.clients)), fmt.Sprintf("alphabet=%d", min(len(h.uc.charset), 257))}
+	if h.uc.f17() {
+		tags = append(tags, "f17=1")
+	}
+	for m := range h.muts {
+		w.Count("mut=" + m)
+	}
+	w.Count(fmt.Sprintf("ops=%d", len(h.ops)/4*4))
+	w.Add(emit.Case{Input: in, Observed: emit.Ctor("OHist", emit.List(h.obs)), Tags: tags,
+		Human: map[string]any{"origin": h.origin, "usercode": map[string]any{"charset": string(h.uc.charset), "n": h.uc.n, "dash": h.uc.dash}, "steps": h.human}})
+}
+
 func main() {
-	for _, r := range []opfix.Router{opfix.Provider, opfix.Legacy} {
-		st := opfix.NewStd()
-		f, err := opfix.New(st, opfix.Options{Device: op.DeviceAuthorizationConfig{Lifetime: 300 * time.Second, UserCode: op.UserCodeConfig{CharSet: "AB€", CharAmount: 5, DashInterval: 2}}})
-		if err != nil {
-			panic(err)
+	cfg := drv.Parse()
+	r := drv.NewRand(cfg.Seed)
+	w := emit.NewWriter(cfg.Out, "C16_spec", 0, cfg.Only)
+	n := cfg.Count(420, 9000)
+	extra := map[string]int{"clock_ambiguous": 0}
+	for _, s := range []string{"€", "𝄞"} { // the rune lists are UTF-8 encodings
+		if !utf8.ValidString(s) {
+			panic("utf8")
 		}
-		saved := crand.Reader
-		crand.Reader = bytes.NewReader(bytes.Repeat([]byte{1, 2, 3, 0xff, 7}, 8))
-		d := f.Post(r, "/device_authorization", url.Values{"scope": {"openid profile offline_access"}}, []string{"web", "web-secret"}, "")
-		crand.Reader = saved
-		fmt.Println(r, "authz", d.Status, d.Body, d.Panic)
-		dc := d.Str("device_code")
-		uc := d.Str("user_code")
-		poll := func(label string, form url.Values, basic []string) {
-			form.Set("grant_type", "urn:ietf:params:oauth:grant-type:device_code")
-			p := f.Post(r, "/oauth/token", form, basic, "")
-			fmt.Println(r, label, p.Status, p.Body[:min(len(p.Body), 260)], p.Panic)
+	}
+	for i := 0; i < n; i++ {
+		if i%3 == 2 {
+			userCodeCase(r, w)
+		} else {
+			historyCase(r, w, extra)
 		}
-		poll("pending", url.Values{"device_code": {dc}}, []string{"web", "web-secret"})
-		poll("foreign", url.Values{"device_code": {dc}, "client_id": {"native"}}, nil)
-		poll("unauth", url.Values{"device_code": {dc}, "client_id": {"web"}}, nil)
-		poll("wrongsecret", url.Values{"device_code": {dc}}, []string{"web", "nope"})
-		poll("post", url.Values{"device_code": {dc}, "client_id": {"web"}, "client_secret": {"web-secret"}}, nil)
-		poll("unknown", url.Values{"device_code": {"zzz"}}, []string{"web", "web-secret"})
-		poll("nodc", url.Values{}, []string{"web", "web-secret"})
-		poll("noclient", url.Values{"device_code": {dc}}, nil)
-		poll("unkclient", url.Values{"device_code": {dc}, "client_id": {"ghost"}}, nil)
-		poll("nativebasic", url.Values{"device_code": {dc}}, []string{"native", ""})
-		st.FaultMethod, st.FaultKind = "GetDeviceAuthorizatonState", "deadline"
-		poll("deadline", url.Values{"device_code": {dc}}, []string{"web", "web-secret"})
-		st.FaultKind = "error"
-		poll("fault-error", url.Values{"device_code": {dc}}, []string{"web", "web-secret"})
-		st.FaultMethod = ""
-		fmt.Println(st.Approve(uc, "alice"))
-		poll("done", url.Values{"device_code": {dc}}, []string{"web", "web-secret"})
-		poll("done-again", url.Values{"device_code": {dc}}, []string{"web", "web-secret"})
-		poll("done-unauth", url.Values{"device_code": {dc}, "client_id": {"web"}}, nil)
-		st.Deny(uc)
-		poll("denied", url.Values{"device_code": {dc}}, []string{"web", "web-secret"})
-		d = f.Post(r, "/device_authorization", url.Values{"scope": {"openid"}, "client_id": {"web"}}, nil, "")
-		fmt.Println(r, "authz-unauth-web", d.Status, d.Body, d.Panic)
-		d = f.Post(r, "/device_authorization", url.Values{"client_id": {"ghost"}}, nil, "")
-		fmt.Println(r, "authz-ghost", d.Status, d.Body, d.Panic)
-		d = f.Post(r, "/device_authorization", url.Values{}, nil, "")
-		fmt.Println(r, "authz-none", d.Status, d.Body, d.Panic)
-		d = f.Post(r, "/device_authorization", url.Values{}, []string{"web", "bad"}, "")
-		fmt.Println(r, "authz-badsecret", d.Status, d.Body, d.Panic)
-		d = f.Post(r, "/device_authorization", url.Values{"client_id": {"native"}}, []string{"web", "web-secret"}, "")
-		fmt.Println(r, "authz-mixed", d.Status, d.Body, d.Panic, st.Devices[d.Str("device_code")].State.ClientID)
+	}
+	if os.Getenv("C16_SELFTEST") != "" {
+		// harness self-test mutant: a deliberately wrong observation that the check must flag
+		w.Add(emit.Case{Input: emit.Ctor("IUserCode", runeList([]rune("AB")), "2", "0", emit.Bytes([]byte{0, 1})),
+			Observed: emit.Ctor("OUserCode", emit.Some(emit.Str("BA"))), Tags: []string{"kind=selftest"}})
+	}
+	err := w.Close(emit.Meta{Property: "C16", Tier: cfg.Tier, Seed: cfg.Seed,
+		Rule: "2 of 3 cases: a history of 6-15 device_authorization/approve/deny/poll operations by 2-3 clients (confidential web, public native, optionally a post/JWT/spa/no-device-grant client) on both routers over one refstore: flow-first (start a flow with canonical credentials, poll, approve, poll) with mutations (foreign client, wrong/missing/post credentials, unknown code, user code as device code, storage deadline/error, bogus user codes, expired devices via negative lifetime, exhausted random source); 1 of 3 cases: op.NewUserCode directly with crypto/rand.Reader pinned (alphabets incl. non-ASCII, 1, 256 and 300 runes, dash 0 / 1 / >= n, F17 classes). Non-trivial = a history in which a device code was issued, or a produced user code; distinct = distinct (input hash, set of answer kinds).",
+		Extra: map[string]any{"clock_ambiguous": extra["clock_ambiguous"]},
+		Notes: []string{"F21 input class (client without the device grant starting a flow on the Legacy router) is not generated"},
+	})
+	if err != nil {
+		fmt.Fprintln(os.Stderr, err)
+		os.Exit(2)
 	}
 }
